@@ -120,9 +120,21 @@ def raw_case(rng):
     return "gep.rt %s %s %s" % (elem, src, " ".join(raw))
 
 
+def systematic_cases():
+    """vectors of ONE element (fixed and scalable) through every index form and through the base: the result is `<1 x T*>`, not `T*`"""
+    out = []
+    for elem, path in (("i32", []), ("a4(i32)", ["n:i64"]), ("s(i8,i32)", ["c:32:1"])):
+        for v in ("V1", "S1"):
+            for ix in ("n:%s(i64)" % v, "z:%s(i64)" % v, "u:%s(i32)" % v) + (("v:64:0",) if v == "V1" else ()):
+                out.append((elem, "p0(%s)" % elem, [ix] + path))
+                out.append((elem, "p1(%s)" % elem, ["n:i64"] + ([ix] if path and path[0].startswith("n:") else path)))
+            out.append((elem, "%s(p0(%s))" % (v, elem), ["n:i64"] + path))
+    return out
+
+
 def gen(tier, rng, harness, driver):
     n = 500 if tier == "quick" else 50000
-    cases = [gen_case(rng) for _ in range(n)]
+    cases = systematic_cases() + [gen_case(rng) for _ in range(n)]
     args = ["%s %s %s" % (e, s, " ".join(ix)) for e, s, ix in cases]
     spec = C.run_lines([driver], ["gep.spec " + a for a in args], shards=8)
     lines = []
